@@ -131,6 +131,33 @@ fn check_one(s: &str, ctx: &mut Ctx, t: &mut Tally) {
     if s.contains("://") {
         t.nontrivial += 1;
     }
+    // bind() and connect() take their endpoint through the conversion trait: it is the same
+    // parser, with the same verdict, for every string
+    {
+        use zeromq::TryIntoEndpoint;
+        match catch_unwind(AssertUnwindSafe(|| TryIntoEndpoint::try_into(s))) {
+            Ok(via) => {
+                let same = match (&via, &got) {
+                    (Ok(a), Ok(b)) => a == b,
+                    (Err(_), Err(_)) => true,
+                    _ => false,
+                };
+                if !same {
+                    ctx.violation_with(
+                        "C19/bind-connect-conversion-differs-from-parse",
+                        format!("{s:?}: str::parse gives {got:?}, the conversion used by bind()/connect() gives {via:?}"),
+                        witness(),
+                    );
+                    return;
+                }
+            }
+            Err(_) => {
+                let (loc, msg) = crate::take_last_panic().unwrap_or_default();
+                ctx.violation_with("C19/panic", format!("converting {s:?} for bind/connect panicked at {loc}: {msg}"), witness());
+                return;
+            }
+        }
+    }
     match (&expect, &got) {
         (None, Err(_)) => {
             t.rejected += 1;
@@ -338,6 +365,15 @@ fn grammar_string(r: &mut Rng) -> String {
             s.push(':');
         }
         s.push_str(*r.pick(&ports));
+    }
+    // white space around an otherwise complete endpoint (config files, line ends)
+    if r.chance(1, 6) {
+        let pad = *r.pick(&[" ", "\n", "\t", "\r\n", "\u{a0}", "\u{2003}", "  "]);
+        if r.chance(1, 2) {
+            s.push_str(pad);
+        } else {
+            s = format!("{pad}{s}");
+        }
     }
     // occasional mutation: delete / duplicate / replace one char
     if r.chance(1, 3) && !s.is_empty() {
